@@ -161,6 +161,7 @@ impl<Key, Value> CacheD<Key, Value>
         if self.is_shutting_down() { return shutdown_result(); }
 
         assert!(weight > 0, "{}", Errors::KeyWeightGtZero("put_with_weight"));
+        #[cfg(cached_verif)] crate::cache::verif::point("C_PutCheck", 0);
         if self.store.is_present(&key) {
             return Ok(CommandAcknowledgement::rejected(RejectionReason::KeyAlreadyExists))
         }
@@ -198,6 +199,7 @@ impl<Key, Value> CacheD<Key, Value>
 
         let weight = (self.config.weight_calculation_fn)(&key, &value, true);
         assert!(weight > 0, "{}", Errors::WeightCalculationGtZero);
+        #[cfg(cached_verif)] crate::cache::verif::point("C_PutCheck", 0);
         if self.store.is_present(&key) {
             return Ok(CommandAcknowledgement::rejected(RejectionReason::KeyAlreadyExists))
         }
@@ -234,6 +236,7 @@ impl<Key, Value> CacheD<Key, Value>
         if self.is_shutting_down() { return shutdown_result(); }
 
         assert!(weight > 0, "{}", Errors::KeyWeightGtZero("put_with_weight_and_ttl"));
+        #[cfg(cached_verif)] crate::cache::verif::point("C_PutCheck", 0);
         if self.store.is_present(&key) {
             return Ok(CommandAcknowledgement::rejected(RejectionReason::KeyAlreadyExists))
         }
@@ -268,6 +271,7 @@ impl<Key, Value> CacheD<Key, Value>
         let (key, value, time_to_live)
             = (request.key, request.value, request.time_to_live);
 
+        #[cfg(cached_verif)] crate::cache::verif::point("C_PouUpdate", 0);
         let update_response
             = self.store.update(&key, value, time_to_live, request.remove_time_to_live);
 
@@ -293,7 +297,9 @@ impl<Key, Value> CacheD<Key, Value>
         }
 
         let key_id = update_response.key_id_or_panic();
+        #[cfg(cached_verif)] crate::cache::verif::point("C_PouWeightOf", key_id as i64);
         let existing_weight = self.admission_policy.weight_of(&key_id).unwrap_or(0);
+        #[cfg(cached_verif)] crate::cache::verif::event("pou", &[key_id as i64, existing_weight, update_response.existing_expiry().map(|time| crate::cache::verif::secs(&time)).unwrap_or(-1), update_response.new_expiry().map(|time| crate::cache::verif::secs(&time)).unwrap_or(-1)]);
 
         let updated_weight = match update_response.type_of_expiry_update() {
             TypeOfExpiryUpdate::Added(key_id, expiry) => {
@@ -343,6 +349,7 @@ impl<Key, Value> CacheD<Key, Value>
     pub fn delete(&self, key: Key) -> CommandSendResult {
         if self.is_shutting_down() { return shutdown_result(); }
 
+        #[cfg(cached_verif)] crate::cache::verif::point("C_DelMark", 0);
         self.store.mark_deleted(&key);
         self.command_executor.send(CommandType::Delete(key))
     }
@@ -373,6 +380,7 @@ impl<Key, Value> CacheD<Key, Value>
     pub fn get_ref(&self, key: &Key) -> Option<KeyValueRef<'_, Key, StoredValue<Value>>> {
         if self.is_shutting_down() { return None; }
 
+        #[cfg(cached_verif)] crate::cache::verif::point("C_Get", 1);
         if let Some(value_ref) = self.store.get_ref(key) {
             self.mark_key_accessed(key);
             return Some(value_ref);
@@ -455,19 +463,26 @@ impl<Key, Value> CacheD<Key, Value>
     /// This is how `shutdown` in `CommandExecutor` is handled, it finishes all the futures in the pipeline that are placed after the `Shutdown` command.
     /// All such futures ultimately get [`crate::cache::command::CommandStatus::ShuttingDown`].
     pub fn shutdown(&self) {
+        #[cfg(cached_verif)] crate::cache::verif::point("C_ShutFlag", 0);
         if self.is_shutting_down.compare_exchange(false, true, Ordering::Release, Ordering::Relaxed).is_ok() {
             info!("Starting to shutdown cached");
             let _ = self.command_executor.shutdown();
+            #[cfg(cached_verif)] crate::cache::verif::point("C_ShutPolicy", 0);
             self.admission_policy.shutdown();
+            #[cfg(cached_verif)] crate::cache::verif::point("C_ShutTicker", 0);
             self.ttl_ticker.shutdown();
 
+            #[cfg(cached_verif)] crate::cache::verif::point("C_ShutStore", 0);
             self.store.clear();
+            #[cfg(cached_verif)] crate::cache::verif::point("C_ShutClearPolicy", 0);
             self.admission_policy.clear();
+            #[cfg(cached_verif)] crate::cache::verif::point("C_ShutClearTtl", 0);
             self.ttl_ticker.clear();
         }
     }
 
     fn mark_key_accessed(&self, key: &Key) {
+        #[cfg(cached_verif)] crate::cache::verif::point("C_Access", 0);
         self.pool.add((self.config.key_hash_fn)(key));
     }
 
@@ -514,6 +529,7 @@ impl<Key, Value> CacheD<Key, Value>
     pub fn get(&self, key: &Key) -> Option<Value> {
         if self.is_shutting_down() { return None; }
 
+        #[cfg(cached_verif)] crate::cache::verif::point("C_Get", 0);
         if let Some(value) = self.store.get(key) {
             self.mark_key_accessed(key);
             return Some(value);
@@ -707,6 +723,38 @@ impl<'a, Key, Value, MapFn, MappedValue> Iterator for MultiGetMapIterator<'a, Ke
     }
 }
 
+
+#[cfg(cached_verif)]
+impl<Key, Value> CacheD<Key, Value>
+    where Key: Hash + Eq + Send + Sync + Clone + 'static,
+          Value: Send + Sync + 'static {
+    /// Projection of this instance onto the state of the specification. Never blocks: parts whose lock is held are `None`.
+    pub fn verif_snapshot(&self, key_fn: &dyn Fn(&Key) -> i64, value_fn: &dyn Fn(&Value) -> i64) -> crate::cache::verif::Snapshot {
+        let cache_weight = self.admission_policy.verif_cache_weight();
+        crate::cache::verif::Snapshot {
+            store: self.store.verif_entries(key_fn, value_fn),
+            weights: cache_weight.verif_entries(key_fn),
+            weight_used: cache_weight.verif_weight_used(),
+            max_weight: cache_weight.get_max_weight(),
+            ttl_shards: self.ttl_ticker.verif_shards(),
+            queue_len: self.command_executor.verif_queue_len(),
+            access_channel_len: self.admission_policy.verif_access_channel_len(),
+            buffer_lens: self.pool.verif_buffer_lens(),
+            lfu_increments: self.admission_policy.verif_lfu_increments(),
+            stats: self.store.stats_counter().verif_counters(),
+            hit_ratio: self.store.stats_counter().hit_ratio(),
+            shutting_down: self.is_shutting_down(),
+            sweeper_keep_running: self.ttl_ticker.verif_keep_running(),
+            consumer_keep_running: self.admission_policy.verif_keep_running(),
+        }
+    }
+
+    /// The frequency estimate admission would use for `key_hash`.
+    pub fn verif_estimate(&self, key_hash: u64) -> u8 { self.admission_policy.estimate(key_hash) }
+
+    /// Records `count` accesses of `key_hash` directly in the sketch.
+    pub fn verif_record_access(&self, key_hash: u64, count: usize) { self.admission_policy.verif_record_access(key_hash, count) }
+}
 
 #[cfg(test)]
 mod tests {
